@@ -19,14 +19,14 @@ type verifDelivery struct {
 }
 
 type verifApp struct {
-	s          *session
-	fromApp    []verifDelivery
-	fromAdmin  []verifDelivery
-	onLogon    int
-	onLogout   int
-	toAdmin    int
-	toApp      int
-	inLogon    bool // ghost: between OnLogon and OnLogout
+	s                   *session
+	fromApp             []verifDelivery
+	fromAdmin           []verifDelivery
+	onLogon             int
+	onLogout            int
+	toAdmin             int
+	toApp               int
+	inLogon             bool // ghost: between OnLogon and OnLogout
 	fromAppOutsideLogon int
 	// behaviour knobs
 	appMayReject   bool // FromApp may return a session-level or business reject
@@ -59,6 +59,9 @@ func (a *verifApp) record(m *Message) verifDelivery {
 }
 func (a *verifApp) FromAdmin(m *Message, _ SessionID) MessageRejectError {
 	a.fromAdmin = append(a.fromAdmin, a.record(m))
+	if a.appMayReject && verifTier() == 1 && ndBool("fromadmin-rejects") {
+		return ValueIsIncorrect(Tag(58))
+	}
 	return nil
 }
 func (a *verifApp) FromApp(m *Message, _ SessionID) MessageRejectError {
@@ -78,10 +81,11 @@ func (a *verifApp) FromApp(m *Message, _ SessionID) MessageRejectError {
 }
 
 type verifRig struct {
-	s   *session
-	app *verifApp
-	out chan []byte
-	st  *memoryStore
+	allEventTypes bool // verifEvent also generates 35=j and 35=3 inbound messages
+	s             *session
+	app           *verifApp
+	out           chan []byte
+	st            *memoryStore
 }
 
 var verifBeginStrings = [4]string{BeginStringFIX41, BeginStringFIX42, BeginStringFIX44, BeginStringFIXT11}
